@@ -190,6 +190,16 @@ func renamed(a fedfix.Assignment, names map[string]string) fedfix.Assignment {
 func runSeq(rp *explore.Report, tier string) {
 	datasets := fedfix.DataSets()
 	as := assignments(tier)
+	// three services, the object's owner in the middle: one parent hops to a service with the full key and to one
+	// that identifies the object by id alone (the parent is asked for the union of both key sets)
+	for _, owner := range []string{"s2", "s3"} {
+		a := fedfix.Assignment{"users": owner, "user": owner, "devices": "s1", "everyone": owner, "admins": "s1", "nobody": owner, "noUsers": owner}
+		others := map[string][]string{"s2": {"s1", "s3"}, "s3": {"s1", "s2"}}[owner]
+		for i, f := range fedfix.ExtraFields {
+			a[f] = others[i%2]
+		}
+		as = append(as, a)
+	}
 	for i, naming := range []map[string]string{{"s1": "core_api", "s2": "user_data", "s3": "x"}, {"s1": "a", "s2": "a_b", "s3": "a_b_c"}, {"s1": "zeta", "s2": "alpha", "s3": "m"}} {
 		for _, j := range []int{1, 5, 11, 64, 333, 1029} {
 			if j < len(as) {
@@ -296,6 +306,11 @@ func runSeq(rp *explore.Report, tier string) {
 						}
 						if err == nil {
 							err = graphql.PrepareQuery(context.Background(), typ, onWire.SelectionSet)
+						}
+						if err == nil {
+							if msg := fedfix.StrictKeys(g.Schemas[svc], rq); msg != "" {
+								err = fmt.Errorf("%s", msg)
+							}
 						}
 						if err != nil {
 							rp.AddViolation(&explore.Violation{Item: fmt.Sprintf("%s query=%s", a.String(), q), Stable: true,
